@@ -244,6 +244,17 @@ func removeNodes[T any](nodes []*node[T], pattern string) []*node[T] {
 	return nodes
 }
 
+// 从 nodes 中删除节点 n 本身，而不是第一个内容相同的节点：
+// 同一个父节点下可能存在内容相同但类型不同的节点（比如在添加之后才注册的拦截器）。
+func removeNode[T any](nodes []*node[T], n *node[T]) []*node[T] {
+	for index, nn := range nodes {
+		if nn == n {
+			return slices.Delete(nodes, index, index+1)
+		}
+	}
+	return nodes
+}
+
 // 将节点 n 从 pos 位置进行拆分。后一段作为当前段的子节点，并返回当前节点。
 // 若 pos 大于或等于 n.pattern 的长度，则直接返回 n 不会拆分，pos 处的字符作为子节点的内容。
 //
@@ -261,7 +272,7 @@ func splitNode[T any](n *node[T], pos int) (*node[T], error) {
 	if err != nil {
 		return nil, err
 	}
-	p.children = removeNodes(p.children, n.segment.Value) // 先从父节点中删除老的 n
+	p.children = removeNode(p.children, n) // 先从父节点中删除老的 n
 	ret := p.newChild(segs[0])
 	// n 本身作为后一段保留，OPTIONS 和 405 的处理函数引用着该对象。
 	n.segment = segs[1]
